@@ -80,9 +80,17 @@ template<class Earth> struct Hist {
     auto b = snap(p);
     for (size_t i = 0; i < a.size(); ++i) if (a[i] != b[i]) { badx("query-modifies-polygon", std::string(what) + " changed " + snapname[i]); return; }
   }
+  // CurrentPoint reports the vertex last added: same latitude, same longitude modulo 360 (the header promises
+  // [-180, 180], the code returns the longitude as stored: either is the same point)
+  static void current_point(const Poly& p, const char* what) {
+    double la, lo; p.CurrentPoint(la, lo);
+    bool ok = std::isnan(p._lat1) ? (std::isnan(la) && std::isnan(lo)) :
+      (bits(la) == bits(p._lat1) && (std::isnan(p._lon1) ? std::isnan(lo) : Math::AngNormalize(lo) == Math::AngNormalize(p._lon1)));
+    if (!ok) badx("current-point", std::string("CurrentPoint after ") + what + " reports (" + g17(la) + ", " + g17(lo) + "), the vertex is (" + g17(p._lat1) + ", " + g17(p._lon1) + ")");
+  }
   static std::string state(const Poly& p) {
-    double lat, lon; p.CurrentPoint(lat, lon); unsigned n = p.NumberPoints();
-    return " s:" + std::to_string(n) + ":" + hx(lat) + ":" + hx(lon) + ":" + hx(p._lat0) + ":" + hx(p._lon0) + ":" + std::to_string(p._crossings) + ":" +
+    unsigned n = p.NumberPoints();
+    return " s:" + std::to_string(n) + ":" + hx(p._lat1) + ":" + hx(p._lon1) + ":" + hx(p._lat0) + ":" + hx(p._lon0) + ":" + std::to_string(p._crossings) + ":" +
       hx(p._areasum._s) + ":" + hx(p._areasum._t) + ":" + hx(p._perimetersum._s) + ":" + hx(p._perimetersum._t);
   }
   // a query against "do it on a copy": count equal, perimeter and area to within round-off of the accumulated sums
@@ -112,15 +120,14 @@ template<class Earth> struct Hist {
         double lat = unhx(t[1]), lon = unhx(t[2]);
         if (p._num) out += inv(earth, p._mask, p._lat1, p._lon1, lat, lon, s12, S12);
         p.AddPoint(lat, lon);
-        double la, lo; p.CurrentPoint(la, lo);
-        if (bits(la) != bits(lat) || bits(lo) != bits(lon)) badx("current-point", "CurrentPoint after AddPoint is not the point added");
+        if (bits(p._lat1) != bits(lat) || bits(p._lon1) != bits(lon)) badx("current-point", "the current vertex after AddPoint is not the point added");
       } else if (t[0] == "E") {
         double azi = unhx(t[1]), s = unhx(t[2]), lat2 = 0, lon2 = 0;
         unsigned n0 = p.NumberPoints(); auto before = snap(p);
         if (p._num) out += dir(earth, p._mask, p._lat1, p._lon1, azi, s, lat2, lon2, S12);
         p.AddEdge(azi, s);
         if (n0 == 0) unchanged(before, p, "AddEdge before the first point");
-        else { double la, lo; p.CurrentPoint(la, lo); if (bits(la) != bits(lat2) || bits(lo) != bits(lon2)) badx("current-point", "CurrentPoint after AddEdge is not the end of the edge"); }
+        else if (bits(p._lat1) != bits(lat2) || bits(p._lon1) != bits(lon2)) badx("current-point", "the current vertex after AddEdge is not the end of the edge");
       } else if (t[0] == "C") {
         bool rev = t[1] == "1", sign = t[2] == "1";
         if (p._num >= 2 && !polyline) out += inv(earth, p._mask, p._lat1, p._lon1, p._lat0, p._lon0, s12, S12);
@@ -163,7 +170,7 @@ template<class Earth> struct Hist {
           for (int rv = 0; rv < 2; ++rv) for (int sg = 0; sg < 2; ++sg) { double pp; r[rv][sg] = SENT; p.TestEdge(azi, s, rv, sg, pp, r[rv][sg]); if (!std::isfinite(r[rv][sg])) ok = false; }
           if (ok) flag_algebra("TestEdge", r, A); }
       }
-      out += state(p);
+      out += state(p); current_point(p, t[0].c_str());
       if (polyline && (p._crossings != 0 || bits(p._areasum._s) != 0 || bits(p._areasum._t) != 0)) badx("polyline-touches-area", "a polyline changed _areasum/_crossings");
     }
     if (p.Polyline() != polyline || bits(p.EquatorialRadius()) != bits(ea) || bits(p.Flattening()) != bits(ef) || bits(p._area0) != bits(A))
@@ -490,7 +497,7 @@ static void gen_planim(Rng& r, int variant) {
 void gv::generate(const std::string& tier, uint64_t seed) {
   Rng r(seed * 32452843 + 8);
   bool thorough = tier == "thorough";
-  long n = thorough ? 16000 : 3000;
+  long n = thorough ? 12000 : 3000;
   const char* backends = "GERXY";
   for (long i = 0; i < n; ++i) {
     char bk = backends[i % 5];
